@@ -76,6 +76,13 @@ fn go_split<T: Lab>(op: &str, args: &[Arg]) -> Option<String> {
         ("argsort", [ax, Arg::Z(k)]) => res_arr(&a.argsort(opt_isize(ax)?, Some(sort_kind(*k)))),
         ("argsort", [ax, Arg::S(k)]) => res_arr(&a.argsort(opt_isize(ax)?, Some(String::from_utf8(k.clone()).ok()?))),
         ("unique", [ax]) => res_arr(&a.unique(opt_isize(ax)?)),
+        ("flip", [Arg::N]) => res_arr(&a.flip(None)),
+        ("flip", [Arg::L(ax)]) => res_arr(&a.flip(Some(isizes(ax)))),
+        ("flipud", []) => res_arr(&a.flipud()),
+        ("fliplr", []) => res_arr(&a.fliplr()),
+        ("roll", [Arg::L(sh), Arg::N]) => res_arr(&a.roll(isizes(sh), None)),
+        ("roll", [Arg::L(sh), Arg::L(ax)]) => res_arr(&a.roll(isizes(sh), Some(isizes(ax)))),
+        ("rot90", [Arg::Z(k), Arg::L(ax)]) => res_arr(&a.rot90(*k as usize, isizes(ax))),
         ("array_split", [Arg::Z(p), ax]) => res_arrs(&a.array_split(*p as usize, opt_usize(ax)?)),
         ("split", [Arg::Z(p), ax]) => res_arrs(&ArraySplit::split(&a, *p as usize, opt_usize(ax)?)),
         ("split_axis", [Arg::Z(ax)]) => res_arrs(&a.split_axis(*ax as usize)),
@@ -95,7 +102,7 @@ pub fn dispatch(op: &str, ty: &str, args: &[Arg]) -> Option<String> {
             "f64" => go_num::<f64>(false, op, args), "f64p" => go_num::<f64>(true, op, args), "f32p" => go_num::<f32>(true, op, args),
             _ => None,
         },
-        "array_split" | "split" | "split_axis" | "hsplit" | "vsplit" | "dsplit" | "sort" | "argsort" | "unique" =>
+        "array_split" | "split" | "split_axis" | "hsplit" | "vsplit" | "dsplit" | "sort" | "argsort" | "unique" | "flip" | "flipud" | "fliplr" | "roll" | "rot90" =>
             Some(with_lab_type!(ty, T, match go_split::<T>(op, args) { Some(s) => s, None => "bad:input".to_string() })),
         "append" | "concatenate" | "stack" | "vstack" | "row_stack" | "hstack" | "hstack_pinned" | "dstack" | "column_stack" =>
             Some(with_lab_type!(ty, T, match go_join::<T>(op, args) { Some(s) => s, None => "bad:input".to_string() })),
